@@ -5,6 +5,7 @@ A statement is a list of (text, role) pairs:
   V  value word echoed into the output as written (never re-cased)
   I  identifier        T  type text        N  number        L  quoted literal
   P  punctuation ( ) ,   O  operator / other glue-free symbol (= < > etc.)
+  S  suffix such as [] : may be glued to the token on its left only
   E  statement terminator ';' (always last token of a statement)
 
 layout = None  -> canonical rendering (one blank between tokens, usual gluing of ( , ) ;)
@@ -91,6 +92,8 @@ def _canonical_sep(prev, cur):
         return ""
     if cr == "P" and ct in (",", ")"):
         return ""
+    if cr == "S":
+        return ""
     if pr == "P" and pt == "(":
         return ""
     if cr == "P" and ct == "(" and pr in ("T",):
@@ -118,7 +121,7 @@ def render_statement(tokens, layout=None, gap0=0, kw0=0, stats=None):
             else:
                 code = seps[gi % len(seps)] % N_SEP
                 sep = SEPS[code]
-                if code in GLUE_CODES and not (prev[1] == "P" or role == "P" or role == "E"):
+                if code in GLUE_CODES and not (prev[1] == "P" or role in ("P", "E", "S")):
                     sep = " "
                 if role == "E" and ("\t" in sep or len(sep) > 1 and "\n" not in sep):
                     sep = " "
@@ -135,7 +138,7 @@ def render_statement(tokens, layout=None, gap0=0, kw0=0, stats=None):
                             stats["K5K6_coerced"] = stats.get("K5K6_coerced", 0) + 1
                         sep = " "
                 # two word-like tokens must stay separated
-                if sep == "" and not (prev[1] == "P" or role in ("P", "E")):
+                if sep == "" and not (prev[1] == "P" or role in ("P", "E", "S")):
                     sep = " "
             out.append(sep)
             gi += 1
